@@ -7,7 +7,7 @@ echo "{" > $OUT.tmp
 first=1
 for d in seeded/*/; do
   id=$(basename $d)
-  prop=$(python3 -c "import json;print(json.load(open('$d/meta.json'))['property'])")
+  prop=$(python3 -c "import json;m=json.load(open('$d/meta.json'));print(m.get('detect_with') or m['property'])")
   p=/verif/${d}patch.diff; [ -f /verif/${d}patch.rebased.diff ] && p=/verif/${d}patch.rebased.diff
   rm -rf replays
   res=$(tools/try_seed.sh $p $prop 2>&1)
